@@ -124,7 +124,10 @@ fn matched_quantities_with_split_ratio(
 ) -> (Decimal, Decimal) {
     let available_at_sell_time = available_at_buy_time / cumulative_ratio_effect;
     let matched_qty_at_sell_time = remaining_at_sell_time.min(available_at_sell_time);
-    let matched_qty_at_buy_time = matched_qty_at_sell_time * cumulative_ratio_effect;
+    // Converting back can overshoot by a rounding unit when the ratio is not exactly
+    // representable (e.g. 2 / 3 * 3); never claim more than the purchase offers.
+    let matched_qty_at_buy_time =
+        (matched_qty_at_sell_time * cumulative_ratio_effect).min(available_at_buy_time);
 
     (matched_qty_at_sell_time, matched_qty_at_buy_time)
 }
